@@ -137,15 +137,18 @@ pub fn generate(r: &mut Runner) {
     for i in 0..cases {
         let name = names[i % names.len()];
         let (ps, ms) = crate::diff::params_for(&mut r.rng, name, 64);
-        let mode = match (i / names.len()) % 4 {
+        // every random choice comes from the PRNG (index arithmetic would alias with the indicator cycle)
+        let mode = match r.rng.below(4) {
             0 | 1 => 0,
             2 => if shift_kind(name).is_some() { 1 } else { 0 },
             _ => if name == "Maximum" { 2 } else { 0 },
         };
-        let k = r.rng.range(0, 80) as i32 - 40;
-        let c = if mode != 0 { 1.0 } else if i % 3 == 0 { [3.0, 0.1, 7.25, 1e3, 0.37][i % 5] } else { (2.0f64).powi(k) };
+        // exponents: the extremes of −40..=40 as often as the middle (absolute epsilons / hard-coded levels
+        // only show in very small or very large price units)
+        let k = if r.rng.chance(0.5) { *r.rng.pick(&[-40, -39, -36, -33, -30, -27, 27, 30, 33, 36, 39, 40]) } else { r.rng.range(0, 80) as i32 - 40 };
+        let c = if mode != 0 { 1.0 } else if r.rng.chance(0.33) { *r.rng.pick(&[3.0, 0.1, 7.25, 1e3, 0.37]) } else { (2.0f64).powi(k) };
         let scale = *r.rng.pick(&[1.0, 100.0, 1e4]);
-        let d = if mode == 1 { scale * [0.5, 3.0, 10.0, 100.0][i % 4] } else { 0.0 };
+        let d = if mode == 1 { scale * *r.rng.pick(&[0.5, 3.0, 10.0, 100.0]) } else { 0.0 };
         let len = r.rng.range(1, maxlen);
         let regime = *r.rng.pick(gen::REGIMES);
         let xs = gen::stream(&mut r.rng, regime, len, true, scale);
